@@ -1125,7 +1125,9 @@ def check_persist(case):
             if target is None or target == os.devnull or "__pycache__" in target:
                 continue        # (byte-code of a lazily imported module is not collection output)
             t = os.path.normpath(os.path.abspath(target))
-            if not is_within(t, out):
+            if is_within(t, base):
+                continue            # the diff above is authoritative inside the temp area
+            if os.path.lexists(t):  # (still there = persisted)
                 raise Violation("collection wrote to %s, outside the output directory" % t, event=e)
         collected = sum(len(flat(broker.get(getattr(Specs, n)))) for n in names)
         if n_created:
@@ -1285,13 +1287,7 @@ REGRESSIONS = [
                                                                ["img", "true", "c2", "/etc/a.conf.bak"]]},
             {"f": "simple_command", "cmd": "{X}/cat x", "keep_rc": False},
         ]}),
-    Reg("deny-symbolic-names", "deny", {
-        "via": "apply", "persist": "observer",
-        "symbolic": {"run": ["hosts", "date", "fstab", "uptime", "cmdline"],
-                     "deny": [{"name": "hosts", "sec": "files"}, {"name": "date", "sec": "files"},
-                              {"name": "cmdline", "sec": "commands"}]},
-        "deny": {"files": ["/etc/fstab", "date "], "commands": ["/usr/bin/uptime", "Hosts"], "components": []},
-        "specs": [{"f": "simple_file", "path": "/etc/hosts", "raw": False},
-                  {"f": "glob_file", "patterns": ["/etc/*"], "raw": False},
-                  {"f": "simple_command", "cmd": "{X}/ls", "keep_rc": False}]}),
+    # (no fixed case with symbolic names here: it would load insights.specs.default - 1 600 components -
+    #  into the runner's parent process and slow every forked worker's registry snapshot; the generator
+    #  produces ~90 such cases per quick run, see label deny:symbolic:denied)
 ]
